@@ -137,6 +137,7 @@ type FnResult struct {
 	SafetyTag  string
 	Retried    bool
 	noNeg      bool // re-examination: do not trust remembered "candidate not proved" outcomes
+	skip       func(*Obligation) bool // obligations not to solve (irrelevant to the property checked)
 }
 
 type VerifyOpts struct {
@@ -192,6 +193,7 @@ func (p *Prog) VerifyFn(fn *ssa.Function, opts VerifyOpts) (res *FnResult) {
 		res.Cands = x.cands
 		res.Secs = time.Since(t0).Seconds()
 	}()
+	x.initSoleWriter(fn, con)
 	x.verifyEntry(fn, con)
 	return res
 }
@@ -470,6 +472,20 @@ func solveAll(res *FnResult, timeout, candTimeout time.Duration) {
 		if !changed {
 			break
 		}
+	}
+	if res.skip != nil {
+		// obligations that cannot influence the verdict of the property being checked
+		// (safety conditions of functions whose safety is not claimed under it, clauses of
+		// other properties) are not sent to the solvers
+		var keep []*Obligation
+		for _, o := range rest {
+			if o.Kind != "vacuity" && res.skip(o) {
+				o.Result = SolveResult{Verdict: "skipped", Solver: "-"}
+				continue
+			}
+			keep = append(keep, o)
+		}
+		rest = keep
 	}
 	run(rest, timeout)
 	// vacuity obligations are inverted: "unsat" means the assumptions are contradictory
